@@ -31,7 +31,13 @@ FixedShapes ==
   << << "ReadCertificate", << 5, 0, 6, 0, 7, 0, 4, 9, 9 >>, << >> >>, << "NewKeyCertificate", << 5, 0, 4, 0, 7, 0, 4 >>, << >> >>, << "KeyCertificateFromCertificate", << 5, 0, 4, 0, 7, 0, 4 >>, << >> >>,
      << "ReadKeysAndCertElgAndEd25519", Id("key", 7, 0), << >> >>, << "ReadKeysAndCertX25519AndEd25519", Id("key", 7, 4), << >> >>, << "ReadKeysAndCert", Id("null", 0, 0), << >> >>,
      << "NewDestinationFromBytes", Id("key", 7, 4), << >> >>, << "NewRouterIdentityFromBytes", Id("key", 7, 4), << >> >>, << "ReadDestinationFromLeaseSet", Id("key", 7, 4) \o Fill(20, 1), << >> >>,
-     << "ReadRouterAddress", Addr, << >> >>, << "ReadMapping", SerMapping(Opts), << >> >>, << "NewMapping", SerMapping(Opts), << >> >>,
+     << "ReadRouterAddress", Addr, << >> >>,
+     \* addresses without a usable host: the IP version falls back to the caps option (empty, bare family digit, letters + digit, no digit)
+     << "ReadRouterAddress", EncRouterAddress(5, Zeros(8), << 83, 83, 85, 50 >>, << << << 99, 97, 112, 115 >>, << >> >> >>), << >> >>,
+     << "ReadRouterAddress", EncRouterAddress(5, Zeros(8), << 83, 83, 85, 50 >>, << << << 99, 97, 112, 115 >>, << 54 >> >> >>), << >> >>,
+     << "ReadRouterAddress", EncRouterAddress(5, Zeros(8), << 83, 83, 85, 50 >>, << << << 99, 97, 112, 115 >>, << 66, 67, 52 >> >>, << << 104, 111, 115, 116 >>, << 120, 46, 105, 50, 112 >> >> >>), << >> >>,
+     << "ReadRouterAddress", EncRouterAddress(5, Zeros(8), << 83, 83, 85 >>, << << << 99, 97, 112, 115 >>, << 66 >> >>, << << 104, 111, 115, 116 >>, << >> >>,
+                                                                           << << 105, 104, 48 >>, Fill(32, 1) >>, << << 105, 104, 49 >>, << >> >>, << << 105, 116, 97, 103, 50 >>, << >> >> >>), << >> >>, << "ReadMapping", SerMapping(Opts), << >> >>, << "NewMapping", SerMapping(Opts), << >> >>,
      << "ReadOfflineSignature", Off(7), [typ |-> 7] >>, << "ReadOfflineSignature", EncOffline(T4, 1, 0, 2), [typ |-> 0] >>,
      << "ReadSignature", Fill(64, 1), [typ |-> 7] >>, << "NewSignature", Fill(40, 1), [typ |-> 0] >>, << "NewSignatureFromBytes", Fill(64, 1), [typ |-> 11] >>,
      << "ReadEncryptedLeaseSet", EncELS(11, T4, << 2, 88 >>, 1, Off(11), 100, Fill(100, 2), 7, 3), << >> >>, << "ReadEncryptedLeaseSet", EncELS(7, T4, << 2, 88 >>, 0, << >>, 61, Fill(61, 2), 7, 3), << >> >>,
